@@ -87,7 +87,7 @@ def other_class_source(t, mv, rng, cache, env):
     order2 = list(range(nd))
     rng.shuffle(order2)
     from xv.typegen import _uid
-    t2 = dict(t, n=t["n"] + f"alt{next(_uid)}", ord=order2, dims=[rng.choice([s_, d, None]) for s_, d in zip(mv.shape, t["dims"])])
+    t2 = dict(t, n=t["n"] + f"alt{next(_uid)}", anon=False, ord=order2, dims=[rng.choice([s_, d, None]) for s_, d in zip(mv.shape, t["dims"])])
     cls2 = build(t2, cache)
     arg = cls2(plain(t2, mv, rng, np_scalars=True), _buffer=rng.choice([env.buf, None]))
     env.repoison()
